@@ -557,6 +557,65 @@ def nd2(F, R):
 
 
 # ---------------------------------------------------------------- ND3: N and capacity are only bounds
+def n_only_in_full_map_assertion(b, site, kind, s):
+    """the use of N at `site` is (a) on a path that never returns (the text of a panic), or (b) the comparison `edges.len() < N` of
+    an assertion whose other disjunct is `edges.contains_key(<label>)`: false ⇒ contains_key ⇒ (true: continue where `<` continues;
+    false: panic).  That is micromap's own precondition for `insert`; within "at most N labels per vertex" it never fires."""
+    b.presence_assertions()
+    can = set()
+    for x in b.reachable:
+        if b.blocks[x]["term"]["k"] == "return":
+            can.add(x)
+    ch = True
+    while ch:
+        ch = False
+        for x in b.reachable:
+            if x not in can and any(y in can for y, _ in b.succ[x]):
+                can.add(x); ch = True
+    if site[0] not in can:
+        return True             # (a)
+    if not (kind == "stmt" and s["k"] == "assign" and s["rv"]["k"] == "binop" and s["rv"]["op"] == "Lt"):
+        return False
+    r = s["rv"]["r"]
+    if not (r.get("k") == "const" and r.get("text", "").strip() in ("N", "const N")):
+        return False
+    try:
+        le = strip_load(b.expr_operand(s["rv"]["l"], site))
+    except Exception:
+        return False
+    if not (le[0] == "call" and le[1].split("::")[-1] == "len" and mentions(le[2][0], lambda x: x[0] == "field" and x[2] == "Vertex::edges")):
+        return False
+    edges = strip_sites(strip_load(le[2][0]))
+    t = b.blocks[site[0]]["term"]
+    if t["k"] != "switch":
+        return False
+
+    def skip(x):
+        for _ in range(6):
+            blk = b.blocks[x]
+            if blk["term"]["k"] == "goto" and all(st.get("k") != "assign" or not st["lhs"]["proj"] for st in blk["stmts"]):
+                x = blk["term"]["target"]
+            else:
+                break
+        return x
+    f_t = [tb for val, tb in t["targets"] if val == 0]
+    if len(f_t) != 1 or t.get("otherwise") is None:
+        return False
+    ok_t, b2 = skip(t["otherwise"]), skip(f_t[0])
+    t2 = b.blocks[b2]["term"]
+    if t2["k"] != "call" or t2["callee"].get("name") != "contains_key" or t2.get("target") is None:
+        return False
+    a2 = [strip_load(deref_addr(b, a)) for a in b.call_args(t2, (b2, len(b.blocks[b2]["stmts"])))]
+    if len(a2) != 2 or strip_sites(a2[0]) != edges or a2[1][0] != "param":
+        return False
+    b3 = skip(t2["target"])
+    t3 = b.blocks[b3]["term"]
+    if t3["k"] != "switch" or t3.get("otherwise") is None:
+        return False
+    f3 = [tb for val, tb in t3["targets"] if val == 0]
+    return len(f3) == 1 and skip(t3["otherwise"]) == ok_t and skip(f3[0]) not in can
+
+
 def nd3(F, R):
     n_cap = 0
     # the constructor's capacity argument sizes the vertex store only: the group tables have the fixed size the limits speak of
@@ -592,6 +651,10 @@ def nd3(F, R):
                 ops.append(s["op"])
             for o in ops:
                 if o.get("k") == "const" and o.get("ty") == "usize" and o.get("text", "").strip() in ("N", "const N"):
+                    if n_only_in_full_map_assertion(b, site, kind, s):
+                        R.ok("ND3", b.where(site), "N occurs only in the assertion `edges.len() < N || edges.contains_key(label)` (the container's own "
+                             "condition for an insert) or in its message: it cannot fire while a vertex has at most N labels")
+                        continue
                     R.bad("ND3", "ND3/%s/edge-capacity-used-as-value" % fn_key(b), b.where(site),
                           "the edge capacity N is used as a value: answers differ between graphs of different N")
         for site, t in b.calls():
